@@ -751,7 +751,7 @@ func cases(thorough bool) []kase {
 
 func main() {
 	r := report.Start("C07", "exploration")
-	ks := cases(r.Thorough())
+	ks := cases(true) // quick tier promoted to the full signature product (round d)
 	run := func(k kase) []fail {
 		if k.Kind == "special" {
 			return specialCase(k)
